@@ -13,7 +13,9 @@ RULE = ("harness c17: one record = a HISTORY applied to one operand (fresh view 
         "scratch window by take_* / view at an 8-byte shifted address / from_data on a short buffer / set_size beyond capacity / REJECTED read_from of a self-consistent stream describing a larger "
         "object (each dimension bumped in turn; VecZnx, ScalarZnx, MatZnx, carved GLWE operands, GGLWE and GGSW keys) after which the "
         "receiver - header as its accessors report it after the Err - is used) followed by ONE observed "
-        "operation of the HAL families (vec_znx ring ops, normalise/shift, big ops, dft/idft incl. the in-place consume, svp, vmp) "
+        "operation of the HAL families (vec_znx ring ops, normalise/shift, big ops, dft/idft incl. the in-place consume, svp, vmp, the convolution layer: cnv_prepare_left/right/self, cnv_apply_dft, "
+        "cnv_pairwise_apply_dft with a_size, b_size in 1..5 independently, result sizes 1..7, offsets 0..a+b, cnv_by_const_apply; the prepared "
+        "operands are exact-size from_data views so that a read past them lands in the two-fill guard zone) "
         "on 4 backends, n from 1 where the family admits it, 1..3 columns, sizes 1,2,3,5, exact-size scratch window; every operand "
         "and the scratch live in one allocation between guard zones, run twice from two garbage fills; outputs = "
         "[status, canaries intact, hook violations, digests equal] + the subject's header as the accessors report it; the model "
@@ -299,3 +301,42 @@ def search(ctx, diffs):
             "what": "a canary was overwritten / the accessor hook fired / the output depends on garbage bytes / a safe history left an ill-formed object",
             "records": [line.rsplit("#", 1)[0] + "#"], "observed": line, "other_failures": len(found) - 1,
             "replay_cmd": "python3 tools/check.py C17 --replay <this file>"}
+
+
+def check(prop, tier, seed, replay=None):
+    """entry point used by tools/check.py: a memory fault in the implementation can kill the harness process outright
+    (the main stream runs in one process); the stream is therefore first run once on its own, and when the process dies
+    every record is re-run in an isolated process to name the crashing input - that record is the replay."""
+    import check as C, json, time as _t
+    mod = sys.modules[__name__]
+    if replay:
+        return C.generic_check(prop, tier, seed, mod, replay)
+    binp, blog = C.build_harness(prop, "release")
+    if binp is None:
+        return C.generic_check(prop, tier, seed, mod, replay)     # reported there
+    ctx = C.Ctx(prop, tier, seed)
+    probe = ctx.work / "probe.txt"
+    t0 = _t.time()
+    rc, log = C.run([str(binp), "gen", tier, str(seed), str(probe)], timeout=3000)
+    if rc == 0:
+        return C.generic_check(prop, tier, seed, mod, replay)
+    lst = ctx.work / "probe_in.txt"
+    C.run([str(binp), "list", tier, str(seed), str(lst)])
+    lines = [l for l in lst.read_text().splitlines() if l.strip()]
+    outs = _isolated(ctx, lines, "_probe")
+    crashed = [l for l in outs if "#CRASH:" in l]
+    first = crashed[0] if crashed else None
+    payload = {"property": prop, "kind": "oracle-failure", "class": None,
+               "what": "the harness process was killed while running this input (memory fault inside the implementation): "
+                       "an access left the buffers it was given",
+               "records": [first.rsplit("#", 1)[0] + "#"] if first else [], "observed": first, "profile": "release",
+               "harness_exit": rc, "crashing_records": len(crashed),
+               "replay_cmd": f"python3 tools/check.py {prop} --replay <this file>"}
+    rp = C.write_replay(prop, "crash", payload)
+    print(f"VIOLATION property={prop} replay={rp}" + ("" if first else " no-failing-input-found"))
+    C.write_evidence(prop, {"property_id": prop, "tier": tier, "seed": seed, "level": "proof",
+                            "coverage": {"notes": [f"main stream killed the harness (exit {rc}); {len(crashed)} of {len(lines)} records crash in isolation"],
+                                         "evaluations": len(lines)},
+                            "assumptions": ASSUMPTIONS, "wall_s": round(_t.time() - t0, 1), "violations": 1})
+    print(f"{prop}: harness crashed; crashing records={len(crashed)} exit=1")
+    return 1
